@@ -1,10 +1,168 @@
-(* C20 -- placeholder while stage A is built; replaced by the property theorems. *)
-From Coq Require Import ZArith List String.
-Require Import Rig.Generated.GenBoot Rig.Model.Base Rig.Model.Boot.
+(* C20 -- Boot sends the complete image carrying this call's options only.
+
+   "Booting sends a start datagram announcing the number of blocks, then that many consecutively numbered
+    blocks of at most one kilobyte each, then an end datagram; undoing the documented word-wise byte swap and
+    concatenating the blocks gives the boot image byte for byte, except that the 128-byte configuration area
+    holds the packed system-variable defaults with the options of this call applied.  Options given to one
+    boot never appear in a later boot that did not ask for them, and the struct definitions returned describe
+    the same values."   Quantifier: all option sets, all images below the size limit, all sequences of boots
+    from one process.
+
+   Model/Boot.v: boot_step (the code of rig/machine_control/boot.py as it is now), boot_orig_step (the code as
+   found, before the fix that copies sv_overrides), over the constants, formats, fixed fields, presets, default
+   dictionary and parsed `sv` struct regenerated from /repo into Generated/GenBoot.v.
+   [boot_after earlier c] is the outcome of the call c made after the calls [earlier] in the same process
+   (library state = the dictionary object that is the default of sv_overrides); [boot_alone c] the outcome in
+   a fresh process.  Spec/Boot.v states the wire format, the receiver's reassembly, this call's option values
+   and the domain with numbers written out.  This file holds only statements; proofs are in Proofs/Boot*.v.
+
+   Hypotheses that are representation invariants, not restrictions: bytes_ok (a bytes object holds 0..255),
+   dict_ok / opt_dict_ok (a dict has distinct keys). *)
+From Coq Require Import ZArith List Bool String.
+Require Import Rig.Generated.GenBoot Rig.Generated.GenBootImage Rig.Model.Base Rig.Model.Boot Rig.Spec.Boot.
+Require Import Rig.Proofs.BootStruct Rig.Proofs.Boot.
 Import ListNotations.
 Open Scope Z_scope.
 
+(* Clause 1.  Whenever a boot returns, in any history, for every word-sized image and every option set, the
+   datagrams are: start announcing n-1, blocks 0..n-1 (1 <= n <= 32, each 4..1024 bytes, word-sized) carrying
+   their number in arg1, end -- all to the board named in this call. *)
+Theorem C20_boot_sequence :
+  forall earlier c fs,
+    bytes_ok (c_image c) -> len (c_image c) mod 4 = 0 ->
+    o_result (boot_after earlier c) = Ok fs ->
+    exists payloads,
+      boot_sequence (o_datagrams (boot_after earlier c)) payloads /\
+      o_dest (boot_after earlier c) = Some (c_host c, port_of c).
+Proof. exact boot_after_sequence. Qed.
+
+(* Clause 2.  Dropping start/end, stripping the headers, undoing the swap and concatenating gives the image
+   with bytes 384..511 replaced by the first 128 bytes of the sv struct packed with THIS call's values
+   (described_fields c depends on c alone: file defaults, c's sv_overrides, c's keywords, the clock). *)
+Theorem C20_boot_reassembles :
+  forall earlier c fs,
+    bytes_ok (c_image c) -> len (c_image c) mod 4 = 0 ->
+    opt_dict_ok (c_overrides c) -> dict_ok (c_kwargs c) ->
+    o_result (boot_after earlier c) = Ok fs ->
+    exists packed,
+      pack_struct (mksdef (s_size (c_sv c)) (described_fields c)) = Ok packed /\ 128 <= len packed /\
+      reassemble (o_datagrams (boot_after earlier c)) = expected_image (c_image c) packed.
+Proof. exact boot_after_reassembles. Qed.
+
+(* Clauses 2 and 3 byte by byte, for images that contain the configuration area and struct definitions whose
+   fields are disjoint integer fields (sv_wf; the bundled one is, see C20_live_sv_well_formed): same length;
+   every byte outside 384..511 is the image's; every field lying in the first 128 bytes of the struct appears
+   little-endian at 384+offset with the value option_value c (this call's option, else the file default);
+   bytes of the area that no field covers are zero. *)
+Theorem C20_boot_bytes :
+  forall earlier c fs,
+    bytes_ok (c_image c) -> len (c_image c) mod 4 = 0 -> 512 <= len (c_image c) ->
+    opt_dict_ok (c_overrides c) -> dict_ok (c_kwargs c) -> sv_wf (c_sv c) = true ->
+    o_result (boot_after earlier c) = Ok fs ->
+    let r := reassemble (o_datagrams (boot_after earlier c)) in
+    len r = len (c_image c) /\
+    (forall i, (i < 384 \/ 512 <= i)%nat -> nth i r 0 = nth i (c_image c) 0) /\
+    (forall f, In f (s_fields (c_sv c)) ->
+       exists sg w, pack_kind (f_pack f) = Some (sg, w) /\
+         (f_offset f + Z.of_nat w <= 128 ->
+          forall j, (j < w)%nat ->
+            nth (384 + Z.to_nat (f_offset f) + j) r 0
+            = nth j (le_bytes w (option_value c (f_name f) (f_default f))) 0)) /\
+    (forall i, (i < 128)%nat -> (forall f, In f (s_fields (c_sv c)) -> ~ covers f i) -> nth (384 + i) r 0 = 0).
+Proof. exact boot_after_bytes. Qed.
+
+(* Clause 4.  The struct definitions returned are the file's with exactly this call's values as defaults (the
+   values that were packed and sent, by C20_boot_reassembles), and the caller's dictionary is as it was. *)
+Theorem C20_boot_structs_describe :
+  forall earlier c fs,
+    opt_dict_ok (c_overrides c) -> dict_ok (c_kwargs c) ->
+    o_result (boot_after earlier c) = Ok fs ->
+    fs = described_fields c /\ o_caller_dict (boot_after earlier c) = c_overrides c.
+Proof. exact boot_after_describes. Qed.
+
+(* Clause 3.  For every sequence of earlier boots (successful or not, any boards, any options) the whole
+   outcome of a boot -- destination, datagrams, result, caller's dictionary -- is that of the same call in a
+   fresh process: nothing of an earlier call can appear in it. *)
+Theorem C20_boot_history_independent :
+  forall earlier c, boot_after earlier c = boot_alone c.
+Proof. exact boot_history_independent. Qed.
+
+(* ... because no boot changes the shared default dictionary or the dictionary it was given. *)
+Theorem C20_boot_dictionaries_untouched :
+  forall cs c,
+    fst (run boot_step initial_shared cs) = initial_shared /\
+    o_caller_dict (boot_after cs c) = c_overrides c.
+Proof. exact boot_dictionaries_untouched. Qed.
+
+(* History of the defect: for the code as found (boot_orig_step) clause 3 is false.  Witness: boot of board 1
+   with the SpiNN-3 preset, then boot of board 2 with no options: byte 384+10 (hw_ver) received by board 2
+   is 3; in a fresh process, and with the repaired code after the same first boot, it is 0. *)
+Theorem C20_boot_history_leak_refuted :
+  exists earlier c, boot_orig_after earlier c <> boot_orig_alone c.
+Proof. exact orig_history_leak. Qed.
+
+Theorem C20_boot_history_leak_witness :
+  c_overrides leak_second = None /\ c_kwargs leak_second = [] /\
+  nth (384 + 10) (reassemble (o_datagrams (boot_orig_after [leak_first] leak_second))) 0 = 3 /\
+  nth (384 + 10) (reassemble (o_datagrams (boot_orig_alone leak_second))) 0 = 0 /\
+  nth (384 + 10) (reassemble (o_datagrams (boot_after [leak_first] leak_second))) 0 = 0.
+Proof. exact orig_leak_witness. Qed.
+
+(* ... and the code as found modified the dictionary the caller passed. *)
+Theorem C20_boot_orig_mutates_callers_dict_refuted :
+  exists c d, c_overrides c = Some d /\
+              o_caller_dict (boot_orig_alone c) = Some (dict_update d (c_kwargs c)) /\
+              dict_update d (c_kwargs c) <> d.
+Proof. exact orig_mutates_callers_dict. Qed.
+
+(* The domain.  A word-sized image of 512..32767 bytes, options that name system variables, values that fit
+   their fields, a struct of at least 128 bytes with the three fixed fields: the boot returns (so the
+   theorems above are not vacuous), in any history. *)
+Theorem C20_boot_succeeds_in_domain :
+  forall earlier c, call_in_domain c -> exists fs, o_result (boot_after earlier c) = Ok fs.
+Proof. exact boot_after_total. Qed.
+
+(* Outside it the model states the error branch: an unknown option name raises before a socket exists and
+   nothing is sent; an image of 32 KiB or more, or not word-sized, never returns normally; and the loop
+   bound of the model (OutOfFuel) is never the outcome, i.e. the block loop terminates. *)
+Theorem C20_boot_unknown_option_raises :
+  forall earlier c,
+    (exists kv, In kv (call_options c) /\ has_field (fst kv) (s_fields (c_sv c)) = false) ->
+    o_result (boot_after earlier c) = OtherError /\ o_datagrams (boot_after earlier c) = [] /\
+    o_dest (boot_after earlier c) = None.
+Proof. exact boot_after_unknown_option. Qed.
+
+Theorem C20_boot_too_large_raises :
+  forall earlier c fs,
+    512 <= len (c_image c) -> 32768 <= len (c_image c) -> o_result (boot_after earlier c) <> Ok fs.
+Proof. exact boot_after_too_large. Qed.
+
+Theorem C20_boot_unaligned_raises :
+  forall earlier c fs,
+    512 <= len (c_image c) -> len (c_image c) mod 4 <> 0 -> o_result (boot_after earlier c) <> Ok fs.
+Proof. exact boot_after_unaligned. Qed.
+
+Theorem C20_boot_terminates :
+  forall earlier c, o_result (boot_after earlier c) <> OutOfFuel.
+Proof. exact boot_after_terminates. Qed.
+
+(* Non-vacuity and the live data. *)
+Example C20_domain_satisfiable : call_in_domain example_call.
+Proof. exact example_call_in_domain. Qed.
+
+Example C20_live_sv_well_formed : sv_wf live_sv = true.
+Proof. exact live_sv_wf. Qed.
+
+(* the bundled scamp.boot (27168 bytes) with the SpiNN-5 preset: 27 blocks + start + end, and the receiver
+   reads hw_ver = 5 *)
+Example C20_bundled_image_boots :
+  len scamp_boot = 27168 /\
+  len (o_datagrams (boot_alone bundled_call)) = 29 /\
+  (exists fs, o_result (boot_alone bundled_call) = Ok fs) /\
+  nth (384 + 10) (reassemble (o_datagrams (boot_alone bundled_call))) 0 = 5.
+Proof. exact bundled_boot. Qed.
+
 Example C20_presets_name_their_board :
-  map (lookup "hw_ver") [spin1_boot_options; spin2_boot_options; spin3_boot_options; spin4_boot_options; spin5_boot_options]
-  = [Some 1; Some 2; Some 3; Some 4; Some 5].
-Proof. reflexivity. Qed.
+  map (lookup "hw_ver") [spin1_boot_options; spin2_boot_options; spin3_boot_options; spin4_boot_options;
+                         spin5_boot_options] = [Some 1; Some 2; Some 3; Some 4; Some 5].
+Proof. exact presets_name_their_board. Qed.
